@@ -219,7 +219,11 @@ impl SplitterSet {
     }
 
     fn take_list(&mut self, b: u32) -> SplitterList {
-        std::mem::take(&mut self.list[b as usize])
+        // a block without predecessors has no splitters and may be beyond the end of the list
+        match self.list.get_mut(b as usize) {
+            Some(l) => std::mem::take(l),
+            None => SplitterList::default(),
+        }
     }
 
     fn add_splitter(&mut self, s: &Splitter) {
